@@ -182,13 +182,33 @@ Theorem C16_workers_nothing_after_stop : forall s ev,
   stopped s -> stopped (fst (wstep s ev)) /\ p_ran (fst (wstep s ev)) = p_ran s /\
   match snd (wstep s ev) with OStart _ => False | _ => True end.
 Proof. exact workers_nothing_after_stop. Qed.
-(* Enqueue after close(quit) fails when the buffer is full.  With room in the buffer the select may pick
-   either case: "Enqueue after Stop fails" is NOT guaranteed by the code (workers_enqueue_after_quit_may_succeed
-   in proofs/, and observed on the real pool: statistic w_enqueue_after_quit_accepted); such a closure is
-   never run, by the previous theorem. *)
+(* Enqueue after close(quit) fails when the buffer is full and no worker is parked to take the closure by
+   rendezvous.  When it can complete the select may pick either case: "Enqueue after Stop fails" is NOT
+   guaranteed by the code (workers_enqueue_after_quit_may_succeed in proofs/, and observed on the real
+   pool: statistic w_enqueue_after_quit_accepted); such a closure is never run, by the previous theorem. *)
 Theorem C16_workers_enqueue_after_quit_full : forall s id pq,
-  p_quit s = true -> (p_cap s <= length (p_queue s))%nat -> wstep s (WEnqueue id pq) = (s, OEnq id false).
+  p_quit s = true -> (p_cap s <= length (p_queue s))%nat ->
+  (p_cap s = 0%nat -> first_idle (p_workers s) = None) ->
+  wstep s (WEnqueue id pq) = (s, OEnq id false).
 Proof. exact workers_enqueue_after_quit_full. Qed.
+(* Progress: with room in the buffer and quit open Enqueue does not block, and a parked worker's select
+   starts the oldest queued closure.  (An unbuffered pool, maxTasks = 0, hands a closure over by rendezvous
+   with a parked worker: workers_unbuffered_rendezvous.) *)
+Theorem C16_workers_enqueue_room : forall s id pq,
+  p_quit s = false -> (length (p_queue s) < p_cap s)%nat -> snd (wstep s (WEnqueue id pq)) = OEnq id true.
+Proof. exact workers_enqueue_room. Qed.
+Theorem C16_workers_take_starts_oldest : forall s w pq h r,
+  p_quit s = false -> nth_error (p_workers s) w = Some WIdle -> p_queue s = h :: r ->
+  snd (wstep s (WTake w pq)) = OStart h /\ p_queue (fst (wstep s (WTake w pq))) = r.
+Proof. exact workers_take_starts_oldest. Qed.
+(* Every run of the pool model, whatever the random selects do, passes the executable check wk_check that
+   the harness applies to the real pool's observations: the worker-pool cases test utils/workers against
+   this model. *)
+Theorem C16_workers_model_passes_check : forall cap n tr,
+  NoDup (enq_ids tr) ->
+  let s0 := pool_init cap n in
+  wk_check (wk_runs (fst (wrun s0 tr)) (enq_ids tr)) (wk_enqs s0 tr) (wk_late s0 tr) = true.
+Proof. exact workers_model_passes_check. Qed.
 
 (* non-vacuity of C16_liveness: a concrete fair trace within capacity, and the requests it leads to *)
 Example C16_liveness_nonvacuous :
@@ -211,3 +231,6 @@ Print Assumptions C16_scheduler_is_run.
 Print Assumptions C16_workers_run_at_most_once.
 Print Assumptions C16_workers_nothing_after_stop.
 Print Assumptions C16_workers_enqueue_after_quit_full.
+Print Assumptions C16_workers_enqueue_room.
+Print Assumptions C16_workers_take_starts_oldest.
+Print Assumptions C16_workers_model_passes_check.
